@@ -32,7 +32,10 @@ CONSTANTS MaxBlocks,
           FrT, FrD, FrL, FrJ,          \* friction-loss rows: efc type (1 dof, 2 tendon), D, floss, jar
           UnT, UnD, UnJ,               \* unilateral rows:    efc type (3 limit joint, 4 limit tendon, 5 frictionless, 6 pyramidal), D, jar
           ElDim, ElMu, ElK, ElD, ElDir, ElA, ElT,   \* elliptic: dim, mu, friction-set index, D of the normal, direction index, a, t
-          Hs                           \* steps of the difference quotients
+          CvA, CvT,                    \* partner points of the midpoint-convexity test on the cone slice
+          Hs,                          \* steps of the difference quotients
+          Deep,                        \* TRUE: all properties are evaluated; FALSE: only the cheap ones (long compositions)
+          Variant                      \* "doc" = the documented model; other values are deliberately wrong (negative controls)
 
 \* ------------------------------------------------------------------------------------------------
 \* exact rationals: <<num, den>>, den > 0, lowest terms (so equality of values is equality of tuples)
@@ -42,14 +45,15 @@ GCD(a, b) == IF b = 0 THEN a ELSE GCD(b, a % b)
 IAbs(i)   == IF i < 0 THEN 0 - i ELSE i
 Rt(n, d)  == LET g == GCD(IAbs(n), IAbs(d)) IN
              IF d < 0 THEN <<(0 - n) \div g, (0 - d) \div g>> ELSE <<n \div g, d \div g>>
-Int(i)    == <<i, 1>>
+RI(i)    == <<i, 1>>
 Zero      == <<0, 1>>
 One       == <<1, 1>>
 Two       == <<2, 1>>
-Add(x, y) == Rt(x[1] * y[2] + y[1] * x[2], x[2] * y[2])
-Sub(x, y) == Rt(x[1] * y[2] - y[1] * x[2], x[2] * y[2])
-Mul(x, y) == Rt(x[1] * y[1], x[2] * y[2])
-Div(x, y) == Rt(x[1] * y[2], x[2] * y[1])            \* y # 0
+Add(x, y) == LET g == GCD(x[2], y[2]) IN Rt(x[1] * (y[2] \div g) + y[1] * (x[2] \div g), (x[2] \div g) * y[2])
+Sub(x, y) == LET g == GCD(x[2], y[2]) IN Rt(x[1] * (y[2] \div g) - y[1] * (x[2] \div g), (x[2] \div g) * y[2])
+Mul(x, y) == LET g1 == GCD(IAbs(x[1]), y[2])  g2 == GCD(IAbs(y[1]), x[2]) IN      \* cross-reduced: no needless overflow
+             <<(x[1] \div g1) * (y[1] \div g2), (x[2] \div g2) * (y[2] \div g1)>>
+Div(x, y) == IF y[1] < 0 THEN Mul(x, <<0 - y[2], 0 - y[1]>>) ELSE Mul(x, <<y[2], y[1]>>)      \* y # 0
 Neg(x)    == <<0 - x[1], x[2]>>
 Sq(x)     == Mul(x, x)
 Half(x)   == Rt(x[1], 2 * x[2])
@@ -58,9 +62,6 @@ Lt(x, y)  == x[1] * y[2] < y[1] * x[2]
 Le(x, y)  == x[1] * y[2] <= y[1] * x[2]
 Pos(x)    == x[1] > 0
 Mul3(x, y, z) == Mul(x, Mul(y, z))
-RECURSIVE SumTo(_, _)
-SumTo(f, k) == IF k = 0 THEN Zero ELSE Add(SumTo(f, k - 1), f[k])      \* f[1] + ... + f[k]
-Dot(f, g, k) == SumTo([j \in 1..k |-> Mul(f[j], g[j])], k)
 Qs(S, d) == {Rt(n, d) : n \in S}
 
 \* ------------------------------------------------------------------------------------------------
@@ -92,220 +93,256 @@ Ell(dim, mu, k, D, dk, a, t) ==
   [kind |-> "ell", ty |-> 7, D |-> D, fl |-> Zero, dim |-> dim, mu |-> mu, fr |-> FrSet(dim, k),
    dir |-> DirSet(dim, dk).v, nd |-> DirSet(dim, dk).nd, a |-> a, t |-> t]
 
+\* Every quantity is defined ENTRY-WISE (operators of an index), and sums are folds over an operator argument:
+\* TLC re-evaluates an aggregate each time it is indexed, so vectors are never built to be indexed in a loop.
+RECURSIVE Sum(_, _)
+Sum(F(_), k) == IF k = 0 THEN Zero ELSE Add(Sum(F, k - 1), F(k))              \* F(1) + ... + F(k)
+
 \* geometry of the slice
-Jar(b, a, t) == [j \in 1..b.dim |-> IF j = 1 THEN Mul(a, Int(b.nd))
-                                     ELSE Div(Mul(t, Int(b.dir[j - 1])), b.fr[j - 1])]
-DJarDa(b) == [j \in 1..b.dim |-> IF j = 1 THEN Int(b.nd) ELSE Zero]
-DJarDt(b) == [j \in 1..b.dim |-> IF j = 1 THEN Zero ELSE Div(Int(b.dir[j - 1]), b.fr[j - 1])]
+JarJ(b, a, t, j) == IF j = 1 THEN Mul(a, RI(b.nd)) ELSE Div(Mul(t, RI(b.dir[j - 1])), b.fr[j - 1])
+DJarDaJ(b, j) == IF j = 1 THEN RI(b.nd) ELSE Zero
+DJarDtJ(b, j) == IF j = 1 THEN Zero ELSE Div(RI(b.dir[j - 1]), b.fr[j - 1])
 \* coupled regularizers of one elliptic contact:  D_j = D mu_j^2 / mu^2   (R_j mu_j^2 = R_1 mu^2)
 Dj(b, j) == IF j = 1 THEN b.D ELSE Div(Mul(b.D, Sq(b.fr[j - 1])), Sq(b.mu))
 Rj(b, j) == Div(One, Dj(b, j))
 Sc(b, j) == IF j = 1 THEN b.mu ELSE b.fr[j - 1]            \* dU/djar = diag(mu, friction)
-NN(b, a) == Mul3(b.mu, a, Int(b.nd))                        \* N = mu jar_1
-TT(b, t) == Mul(RAbs(t), Int(b.nd))                         \* T = | friction .* jar_tangential |
-UU(b, t, j) == Mul(t, Int(b.dir[j - 1]))                    \* U_j, j in 2..dim
-Dm(b) == Div(b.D, Mul(Sq(b.mu), Add(One, Sq(b.mu))))        \* D / (mu^2 (1 + mu^2))
+NN(b, a) == Mul3(b.mu, a, RI(b.nd))                        \* N = mu jar_1
+TT(b, t) == Mul(RAbs(t), RI(b.nd))                         \* T = | friction .* jar_tangential |
+UU(b, t, j) == Mul(t, RI(b.dir[j - 1]))                    \* U_j, j in 2..dim
+Dm(b) == IF Variant = "midscale" THEN Div(b.D, Sq(b.mu))     \* (wrong on purpose)
+         ELSE Div(b.D, Mul(Sq(b.mu), Add(One, Sq(b.mu))))   \* D / (mu^2 (1 + mu^2))
+NmT(b, a, t) == Sub(NN(b, a), Mul(b.mu, TT(b, t)))          \* N - mu T
 
 \* ---- zones: the set of zones whose closure contains the point (two or three at a boundary)
-ZonesOf(b, a, t) ==
-  CASE b.kind = "eq"   -> {"quad"}
-    [] b.kind = "fric" -> LET br == Div(b.fl, b.D) IN            \* R floss
-                          {z \in {"linneg", "quad", "linpos"} :
-                             \/ z = "linneg" /\ Le(a, Neg(br))
-                             \/ z = "quad" /\ Le(Neg(br), a) /\ Le(a, br)
-                             \/ z = "linpos" /\ Le(br, a)}
-    [] b.kind = "uni"  -> {z \in {"sat", "quad"} : (z = "sat" /\ Le(Zero, a)) \/ (z = "quad" /\ Le(a, Zero))}
-    [] b.kind = "ell"  -> LET n == NN(b, a)  tt == TT(b, t) IN
-                          {z \in {"top", "middle", "bottom"} :
-                             \/ z = "top" /\ Le(Mul(b.mu, tt), n)                              \* N >= mu T
-                             \/ z = "bottom" /\ Le(Add(Mul(b.mu, n), tt), Zero)                \* mu N + T <= 0
-                             \/ z = "middle" /\ Pos(tt) /\ Le(n, Mul(b.mu, tt)) /\ Le(Zero, Add(Mul(b.mu, n), tt))}
+InZ(b, z, a, t) ==
+  CASE z = "quad" /\ b.kind = "eq" -> TRUE
+    [] z = "linneg" -> Le(Mul(a, b.D), Neg(b.fl))                                  \* jar <= -R floss
+    [] z = "quad" /\ b.kind = "fric" -> Le(Neg(b.fl), Mul(a, b.D)) /\ Le(Mul(a, b.D), b.fl)
+    [] z = "linpos" -> Le(b.fl, Mul(a, b.D))                                       \* jar >= R floss
+    [] z = "sat" -> Le(Zero, a)
+    [] z = "quad" /\ b.kind = "uni" -> Le(a, Zero)
+    [] z = "top" -> Le(Mul(b.mu, TT(b, t)), NN(b, a))                              \* N >= mu T
+    [] z = "bottom" -> Le(Add(Mul(b.mu, NN(b, a)), TT(b, t)), Zero)                \* mu N + T <= 0
+    [] z = "middle" -> /\ Pos(TT(b, t)) /\ Le(NN(b, a), Mul(b.mu, TT(b, t)))
+                       /\ Le(Zero, Add(Mul(b.mu, NN(b, a)), TT(b, t)))
+ZoneNames(b) == CASE b.kind = "eq" -> {"quad"} [] b.kind = "fric" -> {"linneg", "quad", "linpos"}
+                  [] b.kind = "uni" -> {"sat", "quad"} [] b.kind = "ell" -> {"top", "middle", "bottom"}
+ZonesOf(b, a, t) == {z \in ZoneNames(b) : InZ(b, z, a, t)}
 StateCode(z) == CASE z \in {"sat", "top"} -> 0 [] z \in {"quad", "bottom"} -> 1 [] z = "linneg" -> 2
                   [] z = "linpos" -> 3 [] z = "middle" -> 4
 
 \* ---- cost and force of a zone (closed forms)
 CostZ(b, z, a, t) ==
-  CASE z = "quad"   -> Half(Mul(b.D, Sq(a)))
-    [] z = "linneg" -> Sub(Neg(Half(Mul(Div(One, b.D), Sq(b.fl)))), Mul(b.fl, a))
-    [] z = "linpos" -> Add(Neg(Half(Mul(Div(One, b.D), Sq(b.fl)))), Mul(b.fl, a))
+  CASE z = "quad"   -> IF Variant = "nohalf" THEN Mul(b.D, Sq(a)) ELSE Half(Mul(b.D, Sq(a)))
+    [] z = "linneg" -> Sub(Neg(Half(Div(Sq(b.fl), b.D))), Mul(b.fl, a))          \* -1/2 R floss^2 - floss jar
+    [] z = "linpos" -> Add(Neg(Half(Div(Sq(b.fl), b.D))), Mul(b.fl, a))          \* -1/2 R floss^2 + floss jar
     [] z \in {"sat", "top"} -> Zero
-    [] z = "bottom" -> LET x == Jar(b, a, t) IN Half(SumTo([j \in 1..b.dim |-> Mul(Dj(b, j), Sq(x[j]))], b.dim))
-    [] z = "middle" -> Half(Mul(Dm(b), Sq(Sub(NN(b, a), Mul(b.mu, TT(b, t))))))
-ForceZ(b, z, a, t) ==
-  CASE z = "quad"   -> <<Neg(Mul(b.D, a))>>
-    [] z = "linneg" -> <<b.fl>>
-    [] z = "linpos" -> <<Neg(b.fl)>>
-    [] z = "sat"    -> <<Zero>>
-    [] z = "top"    -> [j \in 1..b.dim |-> Zero]
-    [] z = "bottom" -> LET x == Jar(b, a, t) IN [j \in 1..b.dim |-> Neg(Mul(Dj(b, j), x[j]))]
-    [] z = "middle" -> LET nmt == Sub(NN(b, a), Mul(b.mu, TT(b, t)))
-                           f1  == Neg(Mul3(Dm(b), nmt, b.mu))
-                       IN [j \in 1..b.dim |-> IF j = 1 THEN f1
-                                              ELSE Neg(Mul(Div(f1, TT(b, t)), Mul(UU(b, t, j), b.fr[j - 1])))]
-AZone(b, a, t) == CHOOSE z \in ZonesOf(b, a, t) : TRUE
+    [] z = "bottom" -> Half(Sum(LAMBDA j : Mul(Dj(b, j), Sq(JarJ(b, a, t, j))), b.dim))
+    [] z = "middle" -> Half(Mul(Dm(b), Sq(NmT(b, a, t))))
+ForceZJ(b, z, a, t, j) ==
+  CASE z = "quad"   -> Neg(Mul(b.D, a))
+    [] z = "linneg" -> b.fl
+    [] z = "linpos" -> Neg(b.fl)
+    [] z \in {"sat", "top"} -> Zero
+    [] z = "bottom" -> Neg(Mul(Dj(b, j), JarJ(b, a, t, j)))
+    [] z = "middle" -> IF j = 1 THEN Neg(Mul3(Dm(b), NmT(b, a, t), b.mu))
+                       ELSE Div(Mul3(Mul3(Dm(b), NmT(b, a, t), b.mu), UU(b, t, j), b.fr[j - 1]), TT(b, t))
+AZone(b, a, t) == CHOOSE z \in ZoneNames(b) : InZ(b, z, a, t)
 Cost(b, a, t)  == CostZ(b, AZone(b, a, t), a, t)
-Force(b, a, t) == ForceZ(b, AZone(b, a, t), a, t)
 
 \* ---- cone Hessian of the middle zone (dim x dim): Dm S [1, -mu U'/T ; -mu U/T, mu N/T^3 UU' + (mu^2 - mu N/T) I] S
 HCore(b, a, t, j, k) ==
-  LET n == NN(b, a)  tt == TT(b, t) IN
   IF j = 1 /\ k = 1 THEN One
-  ELSE IF j = 1 THEN Neg(Div(Mul(b.mu, UU(b, t, k)), tt))
-  ELSE IF k = 1 THEN Neg(Div(Mul(b.mu, UU(b, t, j)), tt))
-  ELSE Add(Div(Mul3(Mul(b.mu, n), UU(b, t, j), UU(b, t, k)), Mul3(tt, tt, tt)),
-           IF j = k THEN Sub(Sq(b.mu), Div(Mul(b.mu, n), tt)) ELSE Zero)
-HMid(b, a, t) == [j \in 1..b.dim |-> [k \in 1..b.dim |-> Mul3(Dm(b), Mul(Sc(b, j), Sc(b, k)), HCore(b, a, t, j, k))]]
-MatVec(h, v, n) == [j \in 1..n |-> Dot(h[j], v, n)]
+  ELSE IF j = 1 THEN Neg(Div(Mul(b.mu, UU(b, t, k)), TT(b, t)))
+  ELSE IF k = 1 THEN Neg(Div(Mul(b.mu, UU(b, t, j)), TT(b, t)))
+  ELSE Add(Div(Mul3(Mul(b.mu, NN(b, a)), UU(b, t, j), UU(b, t, k)), Mul3(TT(b, t), TT(b, t), TT(b, t))),
+           IF j = k THEN Sub(Sq(b.mu), Div(Mul(b.mu, NN(b, a)), TT(b, t))) ELSE Zero)
+HE(b, a, t, j, k) == Mul3(Dm(b), Mul(Sc(b, j), Sc(b, k)), HCore(b, a, t, j, k))
 
-\* ---- the documented dual problem of one block
-DualQ(b, a, t, lam) == LET x == Jar(b, a, t) IN
-  Add(Half(SumTo([j \in 1..b.dim |-> Mul(Rj(b, j), Sq(lam[j]))], b.dim)), Dot(lam, x, b.dim))
-InOmega(b, lam) ==
+\* ---- the admissible set Omega of one block (lam(j) = j-th component of a candidate force)
+InOmega(b, lam(_)) ==
   CASE b.kind = "eq"   -> TRUE
-    [] b.kind = "fric" -> Le(RAbs(lam[1]), b.fl)
-    [] b.kind = "uni"  -> Le(Zero, lam[1])
-    [] b.kind = "ell"  -> /\ Le(Zero, lam[1])
-                          /\ Le(SumTo([j \in 1..(b.dim - 1) |-> Div(Sq(lam[j + 1]), Sq(b.fr[j]))], b.dim - 1), Sq(lam[1]))
+    [] b.kind = "fric" -> Le(RAbs(lam(1)), b.fl)
+    [] b.kind = "uni"  -> Le(Zero, lam(1))
+    [] b.kind = "ell"  -> /\ Le(Zero, lam(1))
+                          /\ Le(Sum(LAMBDA j : Div(Sq(lam(j + 1)), Sq(b.fr[j])), b.dim - 1), Sq(lam(1)))
 ProbeScal == Qs(-8..8, 2)
-ProbeN    == {Zero, Rt(1, 2), One, Two, Int(4), Int(8), Int(16)}
-ProbeS    == Qs(-4..4, 2)
-Probes(b) ==
-  IF b.kind # "ell" THEN {<<l>> : l \in ProbeScal}
-  ELSE {[j \in 1..b.dim |-> IF j = 1 THEN n ELSE Div(Mul3(s, b.fr[j - 1], Int(b.dir[j - 1])), Int(b.nd))] :
-           n \in ProbeN, s \in ProbeS}                                   \* along the slice direction
-       \cup {[j \in 1..b.dim |-> IF j = 1 THEN n ELSE IF j = 2 THEN Mul(s, b.fr[1]) ELSE Zero] :
-           n \in ProbeN, s \in ProbeS}                                   \* along the first friction axis
+ProbeN    == {Zero, Rt(1, 2), Two, RI(8), RI(32)}
+ProbeS    == {RI(0 - 2), Rt(0 - 1, 2), Zero, Rt(1, 4), One, RI(4)}
+\* probe forces of an elliptic block: normal n, tangential s along the slice direction (w = 1) or the first axis (w = 2)
+ProbeJ(b, n, s, w, j) == IF j = 1 THEN n
+                         ELSE IF w = 1 THEN Div(Mul3(s, b.fr[j - 1], RI(b.dir[j - 1])), RI(b.nd))
+                         ELSE IF j = 2 THEN Mul(s, b.fr[1]) ELSE Zero
 
 \* ------------------------------------------------------------------------------------------------
-\* the state machine: one block per step; ev = the whole constraint update so far
+\* the state machine.  One block = three short steps (small branching per step):
+\*   Pick<Kind>  chooses kind and parameters          phase "param" -> "point"
+\*   Point       chooses the point (a, t)             phase "point" -> "apply"
+\*   Apply       evaluates the block and appends its rows / contact to the constraint update; publishes ev
 \* ------------------------------------------------------------------------------------------------
-VARIABLES last,     \* the block added by the last step ([kind |-> "none"] initially)
+VARIABLES phase,
+          pend,     \* the block being chosen ([kind |-> "none"] if none)
+          last,     \* the block evaluated by the last Apply ([kind |-> "none"] initially)
           nb,       \* number of blocks
           ne, nf,   \* equality / friction-loss row counts
-          efc,      \* flattened rows: [ty, id, D, R, fl, jar, st (allowed state codes), f (force)]
-          con,      \* contacts: [dim, mu, fr (5 coefficients), H (row-major dim*dim, or << >>)]
+          \* the constraint update so far = the call the replay makes and the results the function must return:
+          efc,      \* flattened rows: [ty, id, D, R, fl, jar | st (allowed state codes), f (force)]
+          con,      \* contacts: [dim, mu, fr (5 coefficients) | H (row-major dim*dim; << >> if no point of the middle zone)]
           cost,     \* total cost
-          ev
-vars == <<last, nb, ne, nf, efc, con, cost, ev>>
+          ev        \* last operation
+vars == <<phase, pend, last, nb, ne, nf, efc, con, cost, ev>>
+None == [kind |-> "none"]
 
-Init == /\ last = [kind |-> "none"] /\ nb = 0 /\ ne = 0 /\ nf = 0 /\ efc = << >> /\ con = << >> /\ cost = Zero
-        /\ ev = [op |-> "init"]
+Init == /\ phase = "param" /\ pend = None /\ last = None /\ nb = 0 /\ ne = 0 /\ nf = 0
+        /\ efc = << >> /\ con = << >> /\ cost = Zero /\ ev = [op |-> "init"]
 
 Rank(kind) == CASE kind = "none" -> 0 [] kind = "eq" -> 1 [] kind = "fric" -> 2 [] OTHER -> 3
 IsContact(b) == b.ty \in {5, 6, 7}
 Pad5(fr) == [j \in 1..5 |-> IF j <= Len(fr) THEN fr[j] ELSE One]
 RowsOf(b, cid) ==
-  LET zs == ZonesOf(b, b.a, b.t)
-      x  == Jar(b, b.a, b.t)
-      f  == Force(b, b.a, b.t)
-  IN [j \in 1..b.dim |-> [ty |-> b.ty, id |-> IF IsContact(b) THEN cid ELSE 0,
-                          D |-> Dj(b, j), R |-> Rj(b, j), fl |-> b.fl, jar |-> x[j],
-                          st |-> {StateCode(z) : z \in zs}, f |-> f[j]]]
+  [j \in 1..b.dim |-> [ty |-> b.ty, id |-> IF IsContact(b) THEN cid ELSE 0,
+                       D |-> Dj(b, j), R |-> Rj(b, j), fl |-> b.fl, jar |-> JarJ(b, b.a, b.t, j),
+                       st |-> {StateCode(z) : z \in ZonesOf(b, b.a, b.t)},
+                       f |-> ForceZJ(b, AZone(b, b.a, b.t), b.a, b.t, j)]]
 ContactOf(b) ==
   IF ~IsContact(b) THEN << >>
   ELSE <<[dim |-> IF b.ty = 5 THEN 1 ELSE IF b.ty = 6 THEN 3 ELSE b.dim, mu |-> b.mu, fr |-> Pad5(b.fr),
-          H |-> IF b.kind = "ell" /\ "middle" \in ZonesOf(b, b.a, b.t)
-                THEN LET h == HMid(b, b.a, b.t) IN
-                     [i \in 1..(b.dim * b.dim) |-> h[((i - 1) \div b.dim) + 1][((i - 1) % b.dim) + 1]]
+          H |-> IF b.kind = "ell" /\ InZ(b, "middle", b.a, b.t)
+                THEN [i \in 1..(b.dim * b.dim) |-> HE(b, b.a, b.t, ((i - 1) \div b.dim) + 1, ((i - 1) % b.dim) + 1)]
                 ELSE << >>]>>
 
-AddBlock(b) ==
-  /\ nb < MaxBlocks /\ Rank(b.kind) >= Rank(last.kind)
-  /\ last' = b /\ nb' = nb + 1
-  /\ ne' = IF b.kind = "eq" THEN ne + 1 ELSE ne
-  /\ nf' = IF b.kind = "fric" THEN nf + 1 ELSE nf
-  /\ efc' = efc \o RowsOf(b, Len(con))
-  /\ con' = con \o ContactOf(b)
-  /\ cost' = Add(cost, Cost(b, b.a, b.t))
-  /\ ev' = [op |-> "update", ne |-> ne', nf |-> nf', efc |-> efc', con |-> con', cost |-> cost']
+Pick(b) ==
+  /\ phase = "param" /\ nb < MaxBlocks /\ Rank(b.kind) >= Rank(last.kind)
+  /\ pend' = b /\ phase' = "point"
+  /\ UNCHANGED <<last, nb, ne, nf, efc, con, cost, ev>>
+PickEq   == \E D \in EqD : Pick(Scalar("eq", 0, D, Zero, Zero))
+PickFric == \E ty \in FrT, D \in FrD, l \in FrL : Pick(Scalar("fric", ty, D, l, Zero))
+PickUni  == \E ty \in UnT, D \in UnD : Pick(Scalar("uni", ty, D, Zero, Zero))
+PickEll  == \E dim \in ElDim, mu \in ElMu, k \in ElK, D \in ElD, dk \in ElDir : Pick(Ell(dim, mu, k, D, dk, Zero, Zero))
 
-AddEq   == \E D \in EqD, x \in EqJ : AddBlock(Scalar("eq", 0, D, Zero, x))
-AddFric == \E ty \in FrT, D \in FrD, l \in FrL, x \in FrJ : AddBlock(Scalar("fric", ty, D, l, x))
-AddUni  == \E ty \in UnT, D \in UnD, x \in UnJ : AddBlock(Scalar("uni", ty, D, Zero, x))
-AddEll  == \E dim \in ElDim, mu \in ElMu, k \in ElK, D \in ElD, dk \in ElDir, a \in ElA, t \in ElT :
-             AddBlock(Ell(dim, mu, k, D, dk, a, t))
-Next == AddEq \/ AddFric \/ AddUni \/ AddEll
+PointsOf(b) == CASE b.kind = "eq" -> EqJ \X {Zero} [] b.kind = "fric" -> FrJ \X {Zero}
+                 [] b.kind = "uni" -> UnJ \X {Zero} [] b.kind = "ell" -> ElA \X ElT
+Point ==
+  /\ phase = "point"
+  /\ \E q \in PointsOf(pend) : pend' = [pend EXCEPT !.a = q[1], !.t = q[2]]
+  /\ phase' = "apply"
+  /\ UNCHANGED <<last, nb, ne, nf, efc, con, cost, ev>>
+
+Apply ==
+  /\ phase = "apply"
+  /\ LET b == pend IN
+     /\ last' = b /\ nb' = nb + 1
+     /\ ne' = IF b.kind = "eq" THEN ne + 1 ELSE ne
+     /\ nf' = IF b.kind = "fric" THEN nf + 1 ELSE nf
+     /\ efc' = efc \o RowsOf(b, Len(con))
+     /\ con' = con \o ContactOf(b)
+     /\ cost' = Add(cost, Cost(b, b.a, b.t))
+     /\ ev' = [op |-> "update", nb |-> nb', nefc |-> Len(efc'), ncon |-> Len(con')]
+  /\ pend' = None /\ phase' = "param"
+
+Next == PickEq \/ PickFric \/ PickUni \/ PickEll \/ Point \/ Apply
 Spec == Init /\ [][Next]_vars
 
 \* ------------------------------------------------------------------------------------------------
-\* properties (about the block just added; every block of every problem is `last` once)
+\* properties, about the block just evaluated (every block of every problem is `last` once).
+\* The block's own force / jar / D / R / H are read back from the published rows (state values, not recomputed).
 \* ------------------------------------------------------------------------------------------------
-Has == last.kind # "none"
-PointsOf(b) == CASE b.kind = "eq" -> EqJ \X {Zero} [] b.kind = "fric" -> FrJ \X {Zero}
-                 [] b.kind = "uni" -> UnJ \X {Zero} [] b.kind = "ell" -> ElA \X ElT
+Has == last.kind # "none" /\ phase = "param"        \* a freshly evaluated block
+Off == Len(efc) - last.dim
+F(j)  == efc[Off + j].f
+X(j)  == efc[Off + j].jar
+RR(j) == efc[Off + j].R
+HH(j, k) == con[Len(con)].H[(j - 1) * last.dim + k]
 SliceDirs(b) == IF b.kind = "ell" THEN {<<1, 0>>, <<0, 1>>} ELSE {<<1, 0>>}
-JarDir(b, e) == IF e[1] = 1 THEN DJarDa(b) ELSE DJarDt(b)
-Pa(b, e, h) == Add(b.a, Mul(Int(e[1]), h))
-Pt(b, e, h) == Add(b.t, Mul(Int(e[2]), h))
-Ma(b, e, h) == Sub(b.a, Mul(Int(e[1]), h))
-Mt(b, e, h) == Sub(b.t, Mul(Int(e[2]), h))
-InZone(b, z, e, h) == z \in ZonesOf(b, Pa(b, e, h), Pt(b, e, h)) /\ z \in ZonesOf(b, Ma(b, e, h), Mt(b, e, h))
+JarDirJ(b, e, j) == IF e[1] = 1 THEN DJarDaJ(b, j) ELSE DJarDtJ(b, j)
+Pa(b, e, h) == Add(b.a, Mul(RI(e[1]), h))
+Pt(b, e, h) == Add(b.t, Mul(RI(e[2]), h))
+Ma(b, e, h) == Sub(b.a, Mul(RI(e[1]), h))
+Mt(b, e, h) == Sub(b.t, Mul(RI(e[2]), h))
+InZone(b, z, e, h) == InZ(b, z, Pa(b, e, h), Pt(b, e, h)) /\ InZ(b, z, Ma(b, e, h), Mt(b, e, h))
+MyZones == ZonesOf(last, last.a, last.t)
 
 TypeOK == /\ nb \in 0..MaxBlocks /\ ne + nf <= nb /\ ne + nf <= Len(efc)
-          /\ (Has => ZonesOf(last, last.a, last.t) # {})
-          /\ \A i \in 1..Len(efc) : efc[i].st # {} /\ efc[i].D[1] > 0 /\ Mul(efc[i].D, efc[i].R) = One
+          /\ phase \in {"param", "point", "apply"}
+          /\ (Has => \A i \in 1..Len(efc) : efc[i].st # {} /\ efc[i].D[1] > 0 /\ Mul(efc[i].D, efc[i].R) = One)
 
+\* force = - d cost / d jar: the central difference quotient of a quadratic piece is exact
+\* (quantifying over a one-element set binds a computed VALUE once)
 GradientOK ==
-  Has => LET b == last  zs == ZonesOf(b, b.a, b.t) IN
-         Cardinality(zs) = 1 =>
-           LET z == CHOOSE y \in zs : TRUE IN
-           \A e \in SliceDirs(b) :
-              /\ \E h \in Hs : InZone(b, z, e, h)
-              /\ \A h \in Hs : InZone(b, z, e, h) =>
-                    Div(Sub(Cost(b, Pa(b, e, h), Pt(b, e, h)), Cost(b, Ma(b, e, h), Mt(b, e, h))), Mul(Two, h))
-                      = Neg(Dot(ForceZ(b, z, b.a, b.t), JarDir(b, e), b.dim))
-
-C1OK ==
-  Has => LET b == last  zs == ZonesOf(b, b.a, b.t) IN
-         \A z1 \in zs, z2 \in zs :
-            /\ CostZ(b, z1, b.a, b.t) = CostZ(b, z2, b.a, b.t)
-            /\ \A j \in 1..b.dim : ForceZ(b, z1, b.a, b.t)[j] = ForceZ(b, z2, b.a, b.t)[j]
-
-ConvexOK ==
-  Has => LET b == last  c == Cost(b, b.a, b.t) IN
-         /\ Le(Zero, c)
-         /\ \A q \in PointsOf(b) :
-               Le(Cost(b, Half(Add(b.a, q[1])), Half(Add(b.t, q[2]))), Half(Add(c, Cost(b, q[1], q[2]))))
-
-DualValueOK ==
-  Has => LET b == last IN Cost(b, b.a, b.t) = Neg(DualQ(b, b.a, b.t, Force(b, b.a, b.t)))
-
-AdmissibleOK == Has => InOmega(last, Force(last, last.a, last.t))
-
-DualOptimalOK ==
-  Has => LET b == last  q0 == DualQ(b, b.a, b.t, Force(b, b.a, b.t)) IN
-         \A lam \in Probes(b) : InOmega(b, lam) => Le(q0, DualQ(b, b.a, b.t, lam))
-
-HessProbes(b) == {DJarDa(b), DJarDt(b), [j \in 1..b.dim |-> One],
-                  [j \in 1..b.dim |-> IF j = 1 THEN Neg(One) ELSE Int(j)]}
-                 \cup {[j \in 1..b.dim |-> IF j = i THEN One ELSE Zero] : i \in 1..b.dim}
-HessianOK ==
-  (Has /\ last.kind = "ell") =>
+  (Has /\ Deep) =>
     LET b == last IN
-    ZonesOf(b, b.a, b.t) = {"middle"} =>
-      LET H == HMid(b, b.a, b.t) IN
-      /\ \A j \in 1..b.dim, k \in 1..b.dim : H[j][k] = H[k][j]
-      /\ \A v \in HessProbes(b) : Le(Zero, Dot(v, MatVec(H, v, b.dim), b.dim))
+    \A zs \in {MyZones} :
+      Cardinality(zs) = 1 =>
+        \A z \in zs, e \in SliceDirs(b) :
+           /\ \E h \in Hs : InZone(b, z, e, h)
+           /\ \A h \in Hs : InZone(b, z, e, h) =>
+                 Div(Sub(Cost(b, Pa(b, e, h), Pt(b, e, h)), Cost(b, Ma(b, e, h), Mt(b, e, h))), Mul(Two, h))
+                   = Neg(Sum(LAMBDA j : Mul(F(j), JarDirJ(b, e, j)), b.dim))
+
+\* C1 at zone boundaries: every adjacent zone's formulas give the same cost and the same force there
+C1OK ==
+  Has => LET b == last IN
+         \A zs \in {MyZones} :
+           /\ zs # {}
+           /\ \A z \in zs : /\ CostZ(b, z, b.a, b.t) = Cost(b, b.a, b.t)
+                            /\ \A j \in 1..b.dim : ForceZJ(b, z, b.a, b.t, j) = F(j)
+
+\* convexity: midpoint inequality against partner points, and non-negative second differences in four directions
+Partners(b) == CASE b.kind = "eq" -> EqJ \X {Zero} [] b.kind = "fric" -> FrJ \X {Zero}
+                 [] b.kind = "uni" -> UnJ \X {Zero} [] b.kind = "ell" -> CvA \X CvT
+ConvDirs(b) == IF b.kind = "ell" THEN {<<1, 0>>, <<0, 1>>, <<1, 1>>, <<1, 0 - 1>>} ELSE {<<1, 0>>}
+ConvexOK ==
+  (Has /\ Deep) =>
+    LET b == last IN
+    \A c \in {Cost(b, b.a, b.t)} :
+      /\ Le(Zero, c)
+      /\ \A q \in Partners(b) :
+            Le(Cost(b, Half(Add(b.a, q[1])), Half(Add(b.t, q[2]))), Half(Add(c, Cost(b, q[1], q[2]))))
+      /\ \A e \in ConvDirs(b), h \in Hs :
+            Le(Add(c, c), Add(Cost(b, Pa(b, e, h), Pt(b, e, h)), Cost(b, Ma(b, e, h), Mt(b, e, h))))
+
+\* the documented dual problem:  s(jar) = - min_{lambda in Omega} 1/2 lambda' R lambda + lambda' jar,  f = argmin
+MyQ(lam(_)) == Add(Half(Sum(LAMBDA j : Mul(RR(j), Sq(lam(j))), last.dim)), Sum(LAMBDA j : Mul(lam(j), X(j)), last.dim))
+DualValueOK == Has => Cost(last, last.a, last.t) = Neg(MyQ(F))
+AdmissibleOK == Has => InOmega(last, F)
+DualOptimalOK ==
+  (Has /\ Deep) =>
+    LET b == last IN
+    \A q0 \in {MyQ(F)} :
+      IF b.kind # "ell"
+      THEN \A l \in ProbeScal : InOmega(b, LAMBDA j : l) => Le(q0, MyQ(LAMBDA j : l))
+      ELSE \A n \in ProbeN, s \in ProbeS, w \in {1, 2} :
+              InOmega(b, LAMBDA j : ProbeJ(b, n, s, w, j)) => Le(q0, MyQ(LAMBDA j : ProbeJ(b, n, s, w, j)))
+
+\* cone Hessian = - d force / d jar (the force is linear on the slice inside the middle zone), symmetric, v'Hv >= 0
+\* probe vectors: unit vectors (w = i), the two slice directions (w = 7, 8), two mixed ones (w = 9, 10)
+HProbeJ(b, w, j) == CASE w <= 6 -> (IF j = w THEN One ELSE Zero)
+                      [] w = 7 -> DJarDaJ(b, j) [] w = 8 -> DJarDtJ(b, j)
+                      [] w = 9 -> One [] w = 10 -> (IF j = 1 THEN Neg(One) ELSE RI(j))
+HV(v(_), j) == Sum(LAMBDA k : Mul(HH(j, k), v(k)), last.dim)                 \* (H v)_j
+HessianOK ==
+  (Has /\ Deep /\ last.kind = "ell") =>
+    LET b == last IN
+    MyZones = {"middle"} =>
+      /\ \A j \in 1..b.dim, k \in 1..b.dim : HH(j, k) = HH(k, j)
+      /\ \A w \in (1..b.dim) \cup 7..10 :
+            Le(Zero, Sum(LAMBDA j : Mul(HProbeJ(b, w, j), HV(LAMBDA k : HProbeJ(b, w, k), j)), b.dim))
       /\ \A e \in SliceDirs(b) :
            /\ \E h \in Hs : InZone(b, "middle", e, h)
            /\ \A h \in Hs : InZone(b, "middle", e, h) =>
-                LET fp == ForceZ(b, "middle", Pa(b, e, h), Pt(b, e, h))
-                    fm == ForceZ(b, "middle", Ma(b, e, h), Mt(b, e, h))
-                    hv == MatVec(H, JarDir(b, e), b.dim)
-                IN \A j \in 1..b.dim : Div(Sub(fp[j], fm[j]), Mul(Two, h)) = Neg(hv[j])
+                \A j \in 1..b.dim :
+                   Div(Sub(ForceZJ(b, "middle", Pa(b, e, h), Pt(b, e, h), j),
+                           ForceZJ(b, "middle", Ma(b, e, h), Mt(b, e, h), j)), Mul(Two, h))
+                     = Neg(HV(LAMBDA k : JarDirJ(b, e, k), j))
 
-\* the total is the sum of the blocks, the rows are laid out contiguously
+\* the total is the sum of the blocks, the rows are laid out contiguously in the order the function assumes
 LayoutOK ==
+  Has =>
   /\ \A i \in 1..Len(efc) : (i <= ne => efc[i].ty = 0) /\ ((i > ne /\ i <= ne + nf) => efc[i].ty \in {1, 2})
                             /\ (i > ne + nf => efc[i].ty \in 3..7)
   /\ \A i \in 1..Len(efc) : efc[i].ty \in {5, 6, 7} => efc[i].id \in 0..(Len(con) - 1)
   /\ Le(Zero, cost)
-
-\* ---- deliberately wrong variants, used as negative controls of the model checking itself
-BadHalfOK ==      \* "lost factor 1/2": force would be -1/2 D jar
-  Has => (last.kind = "eq" =>
-          Div(Sub(Cost(last, Add(last.a, One), Zero), Cost(last, Sub(last.a, One), Zero)), Two)
-            = Half(Mul(last.D, last.a)))
+  /\ (IsContact(last) <=> (Len(con) > 0 /\ efc[Len(efc)].id = Len(con) - 1 /\ efc[Len(efc)].ty \in {5, 6, 7}))
 
 \* ------------------------------------------------------------------------------------------------
 \* lattices for the configurations (cfg files cannot hold tuples)
@@ -314,33 +351,41 @@ L_D3      == {Rt(1, 2), One, Two}
 L_D2      == {One, Two}
 L_D1      == {Two}
 L_EqJ     == Qs(-4..4, 2)
+L_FrT     == {1, 2}
 L_FrL     == {Rt(1, 2), One, Two}
 L_FrJ     == Qs(-20..20, 4)                 \* contains every breakpoint +-R floss = 1/4 .. 4
-L_FrT     == {1, 2}
-L_FrT1    == {1}
 L_UnT     == {3, 4, 5, 6}
 L_UnJ     == Qs(-4..4, 2)
 L_Dims    == {3, 4, 6}
 L_Mu      == {Rt(1, 2), One, Two}
 L_K2      == {1, 2}
 L_K1      == {2}
+L_Dir1    == {1}
 L_Dir2    == {1, 2}
 L_Dir3    == {1, 2, 3}
-L_ElA     == {Int(0 - 4), Int(0 - 2), Int(0 - 1), Rt(0 - 1, 2), Rt(0 - 1, 4), Rt(0 - 1, 8), Zero,
+\* the slice lattice contains every boundary point  a = |t| (top)  and  a = -|t| / mu^2 (bottom)
+L_ElA     == {RI(0 - 4), RI(0 - 2), RI(0 - 1), Rt(0 - 1, 2), Rt(0 - 1, 4), Rt(0 - 1, 8), Zero,
               Rt(1, 4), Rt(1, 2), One, Two}
-L_ElT     == {Int(0 - 2), Int(0 - 1), Rt(0 - 1, 2), Zero, Rt(1, 2), One, Two}
-L_Hs      == {Rt(1, 4), Rt(1, 16), Rt(1, 128)}
+L_ElT     == {RI(0 - 2), RI(0 - 1), Rt(0 - 1, 2), Zero, Rt(1, 2), One, Two}
+L_CvA     == {RI(0 - 4), RI(0 - 1), Rt(0 - 1, 4), Zero, Rt(1, 2), Two}
+L_CvT     == {RI(0 - 2), Rt(0 - 1, 2), Zero, One}
+Q_ElA     == {RI(0 - 4), RI(0 - 1), Rt(0 - 1, 2), Rt(0 - 1, 8), Zero, Rt(1, 2), One}
+Q_ElT     == {RI(0 - 1), Zero, Rt(1, 2), One}
+Q_CvA     == {RI(0 - 2), Rt(0 - 1, 4), One}
+Q_CvT     == {RI(0 - 1), Zero, Two}
+L_Hs      == {Rt(1, 4), Rt(1, 16), Rt(1, 64)}
 \* tiny lattices for the exhaustive two-block run
 S_D       == {Two}
-S_EqJ     == {Int(0 - 1), Rt(1, 2)}
+S_EqJ     == {RI(0 - 1), Rt(1, 2)}
+S_FrT     == {1}
 S_FrL     == {One}
-S_FrJ     == {Int(0 - 1), Rt(0 - 1, 2), Zero, Rt(1, 2), Two}
+S_FrJ     == {RI(0 - 1), Rt(0 - 1, 2), Zero, Rt(1, 2), Two}
 S_UnT     == {3, 6}
-S_UnJ     == {Int(0 - 1), Zero, One}
+S_UnJ     == {RI(0 - 1), Zero, One}
 S_Dims    == {3, 4, 6}
 S_Mu      == {Rt(1, 2)}
 S_K       == {2}
 S_Dir     == {1}
-S_ElA     == {Int(0 - 4), Rt(0 - 1, 2), One}
+S_ElA     == {RI(0 - 4), Rt(0 - 1, 2), One}
 S_ElT     == {Zero, One}
 =============================================================================
